@@ -95,11 +95,11 @@ Proof.
   { intros A B. unfold consistent. rewrite A, B. now split. }
   assert (forall parsed c fpa s1 r fp1, get_session verify s parsed c fpa = (s1, r, fp1) -> consistent s1) as KG.
   { intros parsed c fpa s1 r fp1 G. destruct (gs_fields _ _ _ _ _ _ _ G) as [A B]. unfold consistent. rewrite A, B. now split. }
-  destruct o as [n pw pr|n|n| |id md|id|n sp|n|c|rq c|n c|id|id|dt|]; cbn [step] in E.
+  destruct o as [n pw pr|n|n|cl|id md|id|n sp|n|c|rq c|n c|id|id|dt|]; cbn [step] in E.
   - unfold put_user in E. repeat dmh E; injection E as <- <- <-; now apply Same.
   - unfold del_user in E. repeat dmh E; injection E as <- <- <-; now apply Same.
   - unfold get_user in E. repeat dmh E; injection E as <- <- <-; now apply Same.
-  - unfold list_users in E. repeat dmh E; injection E as <- <- <-; now apply Same.
+  - unfold list_keys in E. repeat dmh E; injection E as <- <- <-; now apply Same.
   - (* PutService *)
     unfold put_service in E. destruct (store_get (services s) id fp) as [g fp1] eqn:G.
     assert (forall reg1,
@@ -235,11 +235,11 @@ Proof.
                               let '(t1, r', fp1') := get_session verify t parsed match o with Login c | Sso _ c | Launch _ c => c | _ => NoCreds end fpa in
                               same_but_registry s1 t1 /\ r = r' /\ fp1 = fp1') as KG.
   { intros. now apply get_session_sbr. }
-  destruct o as [n pw pr|n|n| |id md|id|n sp|n|c|rq c|n c|id|id|dt|]; cbn [step].
+  destruct o as [n pw pr|n|n|cl|id md|id|n sp|n|c|rq c|n c|id|id|dt|]; cbn [step].
   1-4,7-8,12-15:
     destruct s as [us ss sv sc rg cl ra lg], t as [ut st svt sct rgt clt rat lgt]; cbn in U, Se, Sv, Sc, Cl, Ra, Lg, Rg;
     subst ut st svt sct clt rat lgt;
-    unfold put_user, del_user, get_user, list_users, put_shortcut, del_shortcut, get_sess, del_session,
+    unfold put_user, del_user, get_user, list_keys, put_shortcut, del_shortcut, get_sess, del_session,
            set_users, set_sessions, set_shortcuts, set_clock, set_registry; cbn [users sessions clock rand authlog services shortcuts registry];
     repeat dm; unfold same_but_registry; cbn; auto 10.
   - (* PutService *)
